@@ -82,6 +82,7 @@ func (c08) Gen(seed uint64, idx int, tier string) *Scenario {
 		// byte-order mark, say): the lexer stops there, nothing else is diagnosed
 		p.Plants = nil
 		gen.AddLeadingLexFail(r, p, cfg)
+		kind = "ct.lex" // a planted source: not to be damaged below
 		sc.Class = "ct.lex-first"
 	}
 	if r.Chance(1, 120) || (tier == "thorough" && r.Chance(1, 30)) {
